@@ -189,6 +189,15 @@ func init() {
 						return v
 					}
 				}
+				if has(sa.AtEnd, "nosnapop") {
+					for _, dt := range m.readStore() {
+						for i, op := range dt.ops {
+							if i > 0 && strings.HasSuffix(op.typ, "_SNAPSHOT") {
+								return viol("C19:rest-patch-pushed-a-snapshot-operation", "the log of %s holds a %s operation at position %d (every subscriber resets to it); schedule %v", dt.key, op.typ, i+1, x.trace)
+							}
+						}
+					}
+				}
 				if has(sa.AtEnd, "onedoc") {
 					// exactly one datatype document per (collection, key)
 					seen := map[string]int{}
